@@ -24,6 +24,9 @@ func txnRules() []*Rule {
 		{ID: "TXN-1", Props: []string{"C08", "C15"}, Min: 12,
 			Doc: "every exported function of package db that reaches a page read calls resolveDirty (revalidation) before any page read or cache lookup",
 			Run: runTxn1},
+		{ID: "CACHE", Props: []string{"C08"}, Min: 2,
+			Doc: "invalidation is complete: every mutable field a cache lookup reads is reset by the cache's clear(); the schema cache is dropped as a whole",
+			Run: runCache},
 		{ID: "TXN-5", Props: []string{"C08"}, Min: 1,
 			Doc: "the file mapping must follow the file: a mapping created at open is never refreshed by RLock/resolveDirty",
 			Run: runTxn5},
@@ -1277,4 +1280,106 @@ func nearestSpec(off int) string {
 		}
 	}
 	return fmt.Sprintf("%s at %d..%d", best.Name, best.Off, best.Off+best.Size-1)
+}
+
+// fieldsAccessed collects the fields of the named struct type that fn (and methods of the same type it calls)
+// loads from / stores to.
+func fieldsAccessed(p *Program, fn *ssa.Function, typ string, seen map[*ssa.Function]bool, reads, writes map[string]bool) {
+	if seen[fn] {
+		return
+	}
+	seen[fn] = true
+	for _, in := range instrs(fn) {
+		switch x := in.(type) {
+		case *ssa.UnOp:
+			if fa, ok := x.X.(*ssa.FieldAddr); ok && x.Op == token.MUL {
+				if n := namedOf(fa.X.Type()); n != nil && n.Obj().Name() == typ {
+					reads[fieldName(fa)] = true
+				}
+			}
+		case *ssa.Store:
+			if fa, ok := x.Addr.(*ssa.FieldAddr); ok {
+				if n := namedOf(fa.X.Type()); n != nil && n.Obj().Name() == typ {
+					writes[fieldName(fa)] = true
+				}
+			}
+		case ssa.CallInstruction:
+			if callee := x.Common().StaticCallee(); callee != nil && callee.Signature.Recv() != nil {
+				if n := namedOf(callee.Signature.Recv().Type()); n != nil && n.Obj().Name() == typ && p.InModule(callee) {
+					fieldsAccessed(p, callee, typ, seen, reads, writes)
+				}
+			}
+		}
+	}
+}
+
+func runCache(c *Ctx) {
+	p := c.P
+	get := c.MustFunc("db", "(*btreeCache).get")
+	clr := c.MustFunc("db", "(*btreeCache).clear")
+	if get == nil || clr == nil {
+		return
+	}
+	reads, _w := map[string]bool{}, map[string]bool{}
+	fieldsAccessed(p, get, "btreeCache", map[*ssa.Function]bool{}, reads, _w)
+	_r, cleared := map[string]bool{}, map[string]bool{}
+	fieldsAccessed(p, clr, "btreeCache", map[*ssa.Function]bool{}, _r, cleared)
+	// fields written anywhere outside the constructor
+	mutable := map[string]bool{}
+	for _, fn := range p.ModFuncs() {
+		if p.PkgShort(fn) != "db" {
+			continue
+		}
+		for _, in := range instrs(fn) {
+			s, ok := in.(*ssa.Store)
+			if !ok {
+				continue
+			}
+			fa, ok := s.Addr.(*ssa.FieldAddr)
+			if !ok {
+				continue
+			}
+			n := namedOf(fa.X.Type())
+			if n == nil || n.Obj().Name() != "btreeCache" {
+				continue
+			}
+			if _, isNew := fa.X.(*ssa.Alloc); isNew {
+				continue // composite literal in the constructor
+			}
+			mutable[fieldName(fa)] = true
+		}
+	}
+	for f := range reads {
+		key := "btreeCache." + f
+		// synchronisation fields are not cached state
+		var ft types.Type
+		if st, ok := get.Params[0].Type().Underlying().(*types.Pointer).Elem().Underlying().(*types.Struct); ok {
+			for i := 0; i < st.NumFields(); i++ {
+				if st.Field(i).Name() == f {
+					ft = st.Field(i).Type()
+				}
+			}
+		}
+		if ft != nil && strings.HasPrefix(ft.String(), "sync.") {
+			continue
+		}
+		switch {
+		case !mutable[f]:
+			c.Trivial(key, get.Pos(), "read by get, never written after construction")
+		case cleared[f]:
+			c.Pass(key, clr.Pos(), "read by get, written by set, reset by clear")
+		default:
+			c.Fail(key, clr.Pos(), "get() consults btreeCache.%s, which changes over time but is not reset by clear(): pages parsed before another connection's commit survive the invalidation and are served in later transactions", f)
+		}
+	}
+	// the schema cache is dropped as a whole: the store in resolveDirty is of nil to Database.objectCache (TXN-3 checks when)
+	if rd := p.Func("db", "(*Database).resolveDirty"); rd != nil {
+		ok := false
+		for _, in := range instrs(rd) {
+			if s, isS := in.(*ssa.Store); isS && fieldName(s.Addr) == "objectCache" && isNilConst(s.Val) {
+				ok = true
+			}
+		}
+		c.Check(ok, "objectCache dropped", rd.Pos(), "the cached sqlite_master is dropped as a whole")
+	}
 }
